@@ -78,6 +78,36 @@ def classify_call(text: str, func: str, fds: dict) -> list[tuple] | None:
     return []
 
 
+STATE_CONSTS: dict[str, object] = {}  # module-level constant name -> canonical value (filled by run(): names with equal values coincide)
+
+
+def state_value(text: str):
+    """The abstract value of a constant a state field is set to / compared with: True / False, a literal, or a module-level constant
+    (by its folded value when it has one, so that two names for one value coincide); None if `text` is not such a constant."""
+    if text in ("True", "False"):
+        return text == "True"
+    if text in STATE_CONSTS:
+        return STATE_CONSTS[text]
+    if re.fullmatch(r"-?\d+|'[^']*'|\"[^\"]*\"|None", text):
+        return text
+    return None
+
+
+def discover_state_fields(paths_by_fn, fds) -> set[str]:
+    """The protocol's state fields: attributes of the instance that the closer / reader paths both assign constants to and test
+    (today two booleans; a single life-cycle field with named states is the same thing)."""
+    stored, tested = set(), set()
+    for ps in paths_by_fn:
+        for p in ps:
+            for e in p.flat():
+                if e.kind == "store" and e.extra.get("recv") == "self" and e.extra.get("attr") not in fds and state_value(e.extra.get("value") or "") is not None:
+                    stored.add(e.extra["attr"])
+                elif e.kind == "cond":
+                    for a in re.findall(r"\bself\.(_\w+)\b", e.text):
+                        tested.add(a)
+    return stored & tested
+
+
 def slice_path(p, fds, tracked, what: str):
     """Ops of one enumerated path."""
     ops: list[tuple] = []
@@ -88,15 +118,21 @@ def slice_path(p, fds, tracked, what: str):
             ops.append(("unlock", LOCK))
         elif e.kind == "cond":
             m = re.fullmatch(r"self\.(_\w+)", e.text)
+            meq = re.fullmatch(r"self\.(_\w+) == (\S+)|(\S+) == self\.(_\w+)", e.text)
+            min_ = re.fullmatch(r"self\.(_\w+) in [\(\[\{](.+?),?[\)\]\}]", e.text)
             if m and m.group(1) in tracked:
                 ops.append(("test", m.group(1), bool(e.extra.get("truth"))))
+            elif meq and (meq.group(1) or meq.group(4)) in tracked and state_value(meq.group(2) or meq.group(3)) is not None:
+                ops.append(("testin", meq.group(1) or meq.group(4), (state_value(meq.group(2) or meq.group(3)),), bool(e.extra.get("truth"))))
+            elif min_ and min_.group(1) in tracked and all(state_value(x.strip()) is not None for x in min_.group(2).split(",")):
+                ops.append(("testin", min_.group(1), tuple(state_value(x.strip()) for x in min_.group(2).split(",")), bool(e.extra.get("truth"))))
             elif any(re.search(rf"\bself\.{t}\b", e.text) for t in tracked):
                 raise AnalysisError(f"{what}: condition `{e.text[:80]}` on tracked state cannot be abstracted")
         elif e.kind == "store" and e.extra.get("recv") == "self" and e.extra.get("attr") in tracked:
-            v = e.extra.get("value")
-            if v not in ("True", "False"):
-                raise AnalysisError(f"{what}: tracked flag {e.extra.get('attr')} assigned non-constant `{v}`")
-            ops.append(("set", e.extra["attr"], v == "True"))
+            v = state_value(e.extra.get("value") or "")
+            if v is None:
+                raise AnalysisError(f"{what}: tracked state field {e.extra.get('attr')} assigned non-constant `{e.extra.get('value')}`")
+            ops.append(("set", e.extra["attr"], v))
         elif e.kind == "call":
             func = e.extra.get("func", "")
             if func == "self._check_inotify_fd":
@@ -134,7 +170,6 @@ def run(ctx) -> None:
 
     fds, init = descriptor_fields(P)
     fdl = sorted(fds)
-    tracked = {"_closed", "_is_reading"}
     ctx.extra["descriptor_fields"] = fds
     cfg = ProtoCfg(P, fault=False)
     en = Enumerator(cfg)
@@ -142,8 +177,18 @@ def run(ctx) -> None:
     read_f = P.find_method("Inotify", "read_events")
     if close_f is None or read_f is None:
         raise AnalysisError("anchor vanished: Inotify.close / read_events")
+    # module-level constants that may name protocol states (canonical value: the folded literal)
+    STATE_CONSTS.clear()
+    imod = close_f.module
+    for cname, cexpr in imod.consts.items():
+        if isinstance(cexpr, ast.Constant) and isinstance(cexpr.value, (str, int)) and not isinstance(cexpr.value, bool):
+            STATE_CONSTS[cname] = repr(cexpr.value)
     close_paths = en.run(close_f, selfcls="Inotify")
     read_paths = en.run(read_f, selfcls="Inotify")
+    tracked = discover_state_fields([close_paths, read_paths], fds)
+    if not tracked:
+        raise AnalysisError("no state field of the close / read protocol found (a field both assigned constants and tested in Inotify.close and read_events)")
+    ctx.extra["protocol_state_fields"] = sorted(tracked)
     ctx.count("close_paths", len(close_paths))
     ctx.count("read_paths", len(read_paths))
     closer_alts = []
@@ -166,8 +211,8 @@ def run(ctx) -> None:
     ipaths = Enumerator(ProtoCfg(P, fault=False)).run(init, selfcls="Inotify")
     for p in ipaths:
         for e in p.evs:
-            if e.kind == "store" and e.extra.get("recv") == "self" and e.extra.get("attr") in tracked and e.extra.get("value") in ("True", "False"):
-                init_vars[e.extra["attr"]] = e.extra["value"] == "True"
+            if e.kind == "store" and e.extra.get("recv") == "self" and e.extra.get("attr") in tracked and state_value(e.extra.get("value") or "") is not None:
+                init_vars[e.extra["attr"]] = state_value(e.extra["value"])
     if not tracked <= set(init_vars):
         raise AnalysisError(f"initial values of {tracked} not found in Inotify.__init__")
     ctx.extra["initial_state"] = dict(init_vars)
@@ -329,7 +374,7 @@ def run(ctx) -> None:
     ocfg = ThreadCfg(P, follow_attrs=False, no_inline={"join", "is_alive", "BaseThread.start", "EventEmitter.stop"}, raising={r"(emitter|\$elem\(.*\))\.start": "Exception"})
     sp = Enumerator(ocfg).run(P.find_method("BaseObserver", "start"), selfcls="BaseObserver")
     failing = [p for p in sp if p.outcome[0] == "raise"]
-    okf = bool(failing) and all(any(e.kind == "call" and re.fullmatch(r"(\$elem\(.*\)|emitter)\.stop|self\._emitter_for_watch\[(\$elem\(.*\)|emitter)\.watch\]\.stop", e.extra.get("func", "")) for e in p.flat()) for p in failing)
+    okf = bool(failing) and all(any(e.kind == "call" and re.fullmatch(r"(\$elem\(.*\)|emitter)\.stop|self\._emitter_for_watch(\[|\.pop\(|\.get\()(\$elem\(.*\)|emitter)\.watch[\])]\.stop", e.extra.get("func", "")) for e in p.flat()) for p in failing)
     # (the failed emitter may also be reached through the emitter map under its own watch: the map holds exactly the registered
     # emitters under their watches -- C13/coherent-effects)
     ctx.check(okf, RH, "BaseObserver.start failure path stops the failed emitter", "an emitter whose start() raised is not stopped (its buffer thread and descriptors stay)", P.find_method("BaseObserver", "start").loc)
